@@ -18,3 +18,18 @@ package cli
 //@   loop 1 invariant forall i int :: 0 <= i && i < len(receivers) ==> receivers[i] == finalRoutes[i].RouteOpts.Receiver
 //@   noeffect Route).Match convertClientToCommonLabelSet
 //@   assigns nothing
+
+// ---- C07: `routes test --tree` marks a node as a result exactly when none of its children matched (so the tree agrees
+// with the receiver list): children are tried in order, a matching child's subtree is shown, and the scan stops after
+// the first matching child without continue.
+//@ func getMatchingTree
+//@   props C07
+//@   nosafe
+//@   at call getMatchingTree assert [a-matching-child_s-subtree-under-this-branch] arg0 == route.Routes[rangeindex1 + 1] && arg1 == ret("AddBranch") && ret("Matchers).Matches")
+//@   at call SetValue assert [marked-final-only-when-no-child-matched] counttrue0("Matchers).Matches") == 0 && arg0 == ret("AddBranch")
+//@   ensures [final-exactly-when-no-child-matched] called("SetValue") == (counttrue0("Matchers).Matches") == 0)
+//@   ensures [every-matching-child-is-shown] count("getMatchingTree") == counttrue0("Matchers).Matches")
+//@   loop 1 earlyexit ret("Matchers).Matches") && !route.Routes[rangeindex1 + 1].Continue
+//@   loop 1 invariant rangeindex < len(route.Routes) && count("getMatchingTree") == counttrue0("Matchers).Matches") && !called("SetValue") && final == (counttrue0("Matchers).Matches") == 0)
+//@   loop 1 invariant counttrue0("Matchers).Matches") >= 0
+//@   noeffect getMatchingTree getRouteTreeSlug convertClientToCommonLabelSet Matchers).Matches
